@@ -80,6 +80,31 @@ Definition expr_metas (e : expression) : list meta := map expr_meta (sub_exprs e
 Definition stmt_metas (s : statement) : list meta :=
   map expr_meta (stmt_exprs s) ++ map stmt_meta (sub_stmts s).
 
+(* ---- what the parser guarantees about the trees it hands to the desugarer ---- *)
+
+(* the meta belongs to a file of the library (list, per file id, of line starts) *)
+Definition meta_known (lib : list (list N)) (m : meta) : Prop :=
+  exists f, m_file m = Some f /\ nth_error lib (N.to_nat f) <> None.
+
+(* log strings have been split into pieces of at most 230 bytes *)
+Definition short_arg (a : log_argument) : Prop :=
+  match a with LogStr s => String.length s <= 230 | LogExp _ => True end.
+Definition short_node (t : statement) : Prop :=
+  match t with LogCall _ args => Forall short_arg args | _ => True end.
+
+(* named inputs of an anonymous component come with one argument each *)
+Definition wf_node (x : expression) : Prop :=
+  match x with
+  | AnonymousComponent _ _ _ _ ss (Some nm) => List.length nm = List.length ss
+  | _ => True
+  end.
+
+Definition wf_template (lib : list (list N)) (body : statement) : Prop :=
+  Forall (meta_known lib) (stmt_metas body) /\
+  Forall short_node (sub_stmts body) /\
+  Forall wf_node (stmt_exprs body) /\
+  exists m l, body = Block m l.
+
 (* ---- expand_spec ------------------------------------------------------------ *)
 (* What the two kinds of sugar mean.
    * A tuple assignment `(x1, .., xn) op (e1, .., en)` (nested tuples flattened,
